@@ -101,6 +101,11 @@ func (c *regexpSimplifyChecker) simplify(pass int, pat string) string {
 		return ""
 	}
 
+	if c.hasOctalEscape(re.Expr) {
+		// An octal escape takes as many digits as follow it:
+		// `\01{1}1` is not `\011`, `\0[1]` is not `\01`.
+		return ""
+	}
 	if c.hasLiteralBrace(re.Expr) {
 		// Next to a literal `{` or `}`, dropping an escape, a char class or
 		// a group can form a repetition: `a{2[,]3}` is not `a{2,3}`,
@@ -417,6 +422,19 @@ func (c *regexpSimplifyChecker) hasCountedRepeat(e syntax.Expr) bool {
 	}
 	for _, a := range e.Args {
 		if c.hasCountedRepeat(a) {
+			return true
+		}
+	}
+	return false
+}
+
+// hasOctalEscape reports whether e contains an escape like `\0` or `\012`.
+func (c *regexpSimplifyChecker) hasOctalEscape(e syntax.Expr) bool {
+	if e.Op == syntax.OpEscapeOctal {
+		return true
+	}
+	for _, a := range e.Args {
+		if c.hasOctalEscape(a) {
 			return true
 		}
 	}
